@@ -180,6 +180,9 @@ fn run(f: &[&str]) -> String {
         }
         ["samesig.key", qid, base, args, key] => {
             let Some((e, a)) = parse_call(&format!("{}/{}/{}", qid, base, args)) else { return "bad-request".to_string() };
+            if !key.bytes().all(|b| b.is_ascii_digit()) {
+                return "bad-request".to_string();
+            }
             let Ok(key) = key.parse::<u64>() else { return "bad-request".to_string() };
             let r = catch_unwind(AssertUnwindSafe(|| {
                 let db = TestDatabase::default();
